@@ -25,9 +25,24 @@ FORBIDDEN = r'\b(Admitted|admit|Axiom|Axioms|Parameter|Parameters|Conjecture|Con
 
 
 def sh(cmd, timeout=3000, cwd=VERIF):
-    p = subprocess.run(cmd, shell=True, cwd=cwd, env=ENV, stdout=subprocess.PIPE, stderr=subprocess.STDOUT,
-                       text=True, timeout=timeout)
-    return p.returncode, p.stdout
+    # own process group: on a timeout the whole group is killed (a harness that hangs under a changed /repo must not be left
+    # running behind the check)
+    import signal
+    p = subprocess.Popen(cmd, shell=True, cwd=cwd, env=ENV, stdout=subprocess.PIPE, stderr=subprocess.STDOUT, text=True,
+                         start_new_session=True)
+    try:
+        out, _ = p.communicate(timeout=timeout)
+    except subprocess.TimeoutExpired:
+        try:
+            os.killpg(p.pid, signal.SIGKILL)
+        except Exception:
+            p.kill()
+        try:
+            p.communicate(timeout=10)
+        except Exception:
+            pass
+        raise
+    return p.returncode, out
 
 
 def coq_deps(vfile):
